@@ -4,6 +4,7 @@ import Postcard.Model.De
 import Postcard.Model.Flavor
 import Postcard.Spec.Wire
 import Postcard.Model.Entry
+import Postcard.Model.EntryFramed
 import Postcard.Model.SexpSchema
 import Postcard.Model.SchemaHash
 import Postcard.Model.SchemaFmt
@@ -102,10 +103,7 @@ def storageRun (storage : String) (cap : Nat) (fill : Byte)
 
 def accAnswer (n : Nat) (t : Ty) (chunks : List (List Byte)) : String :=
   -- `T::deserialize` on the accumulated frame: from_bytes_cobs::<T>(&mut buf[..idx])
-  let decF : List Byte → Option Val := fun frame =>
-    match (fromBytesCobs (fromBytes t) frame).1 with
-    | .ok v => some v
-    | .error _ => none
+  let decF : List Byte → Option Val := accDecoder t
   -- run the documented loop chunk by chunk, recording the buffer after every call
   let rec go (fuel : Nat) (a : Acc) (w : List Byte) (acc : List String) : Acc × List String :=
     match fuel with
@@ -239,10 +237,19 @@ def handle (line : String) : String :=
         if framing == "plain" then
           storageRun storage cap 0xA5 (fun F s0 memOf => let r := serializeWith F s0 v; fin r.2 (memOf r.1))
         else if framing == "cobs" then
-          storageRun storage cap 0xA5 (fun F s0 memOf => let r := cobsOfVal F s0 v; fin r.2 (memOf r.1))
+          -- the fixed-storage entry points are the definitions Props/C05Framed proves thresholds for
+          if storage == "slice" then
+            let r := toSliceCobs v (List.replicate cap 0xA5); fin r.2 r.1.mem
+          else if storage == "hvec" then
+            let r := toHVecCobs cap v; fin r.2 []
+          else
+            storageRun storage cap 0xA5 (fun F s0 memOf => let r := cobsOfVal F s0 v; fin r.2 (memOf r.1))
         else
           withAlg framing (fun _ alg nbytes =>
-            storageRun storage cap 0xA5 (fun F s0 memOf =>
+            if storage == "slice" then
+              let r := toSliceCrc alg nbytes (List.replicate cap 0xA5) v; fin r.2 r.1
+            else if storage == "hvec" then fin (toHVecCrc alg nbytes cap v) []
+            else storageRun storage cap 0xA5 (fun F s0 memOf =>
               let r := serializeWith (CrcSer alg nbytes F) (s0, alg.init) v; fin r.2 (memOf r.1.1))) "bad-op"
       | _, _ => "bad-op"
     | "cobsenc", [.atom storage, .atom cap, .atom h] =>
